@@ -28,6 +28,11 @@ class Ctx:
         self.rename = {p: 'P%d' % i for i, p in enumerate(ps)}
         if self.f.selfname:
             self.rename[self.f.selfname] = 'SELF'
+        if self.f.cls is not None:
+            # positional parameters of the class's constructor: cls(a, w=b) and cls(a, b) are one call (terms.atom_str)
+            _, init = run.prog.lookup_member(self.f.cls, '__init__')
+            if init is not None and hasattr(init, 'params') and init.node.args.vararg is None:
+                self.rename['__ctor__'] = tuple(init.params[1:])
         self.norm = Normaliser(rename=self.rename)
 
     def returns(self):
